@@ -38,6 +38,21 @@ var verifInvalidPrograms = []struct{ pre, suf string }{
 	{"switch (a) { case 1:", "default: default: }"},
 	{"with", "{}"},
 	{"new", ";"},
+	{"abc: { continue", "abc; }"},
+	{"abc: switch (x) { case 1: continue", "abc; }"},
+	{"abc: if (x) break", "def;"},
+	{"abc: while (x) { (function () { break", "abc; })() }"},
+	{"abc: while (x) { (function () { continue", "abc; })() }"},
+	{"while (x) { (function () { break", "; })() }"},
+	{"switch (x) { case 1: continue", "; }"},
+	{"(function () { return", "1 })(); return"},
+	{"abc: abc:", ";"},
+	{"var a = {get p(x) { return", "1 }}"},
+	{"var a = {set p() {", "}}"},
+	{"try {} catch", "{}"},
+	{"throw", ""},
+	{"a++", "++"},
+	{"for (var a, b in", "c) ;"},
 }
 
 // C04-H3: programs that violate ES5 syntax or its early errors are rejected,
@@ -53,7 +68,19 @@ func VerifH_C04_early_errors() {
 	kind, _ := verifCatch(func() { _, err = newParser("", src, 1, nil).parse() })
 	verifCover("reached")
 	verifAssert(kind == verifNormal, "no panic")
-	verifAssert(err != nil, "an invalid program is rejected")
+	verifAssertK(err != nil, "C04-setter-parameter-count", p.pre == "var a = {set p() {", "an invalid program is rejected")
+}
+
+var verifStatementTails = []string{"a", "x = .5", "x = 5.", "x = 0x1f", "x = 1e3", "x = 010", "x = 's'", "x = /r/g", "(a)", "a[0]", "a++", "a--", "this", "null", "true", "x = {}", "x = []", "x = function(){}", "a.b", "a()"}
+
+var verifForHeaders = []struct {
+	init string
+	ok   bool
+}{
+	{"var a = b in c", false}, {"a = b in c", false}, {"var a = b instanceof c", true}, {"a = b instanceof c ? 1 : 0", true},
+	{"var a = b < c", true}, {"var a = (b in c)", true}, {"var a = [b in c]", true}, {"var a = f(b in c)", true},
+	{"var a = b ? c : d in e", false}, {"var a = b, c = d in e", false}, {"var a = b && c in d", false}, {"var a = b, c = d instanceof e", true},
+	{"a = function () { return b in c }", true}, {"var a = {p: b in c}", true}, {"var a = b[c in d]", true},
 }
 
 // C03-H3: automatic semicolon insertion and restricted productions (7.9.1):
@@ -62,7 +89,23 @@ func VerifH_C04_early_errors() {
 func VerifH_C03_asi() {
 	sep, lt := verifSep()
 	verifCover("reached")
-	switch verifChoose(3) {
+	switch verifChoose(5) {
+	case 3: // <statement ending in any kind of token><sep>b: two statements only across a line terminator
+		first := verifStatementTails[verifChoose(len(verifStatementTails))]
+		prog, err := newParser("", first+sep+"b", 1, nil).parse()
+		if lt {
+			verifAssert(err == nil && prog != nil && len(prog.Body) == 2, "7.9.1: a line terminator after any statement-ending token inserts a semicolon: "+first)
+		} else {
+			verifAssert(err != nil, "7.9.1: white space alone does not separate two statements: "+first)
+		}
+	case 4: // the NoIn grammar of for headers (12.6.3): only a bare `in` is excluded
+		h := verifForHeaders[verifChoose(len(verifForHeaders))]
+		_, err := newParser("", "for ("+h.init+";"+sep+";) ;", 1, nil).parse()
+		if h.ok {
+			verifAssert(err == nil, "12.6.3: accepted for-header initialiser: "+h.init)
+		} else {
+			verifAssert(err != nil, "12.6.3: `in` is not allowed bare in a for-header initialiser: "+h.init)
+		}
 	case 0: // function f(){ return<sep>a }
 		prog, err := newParser("", "function f(){ return"+sep+"a }", 1, nil).parse()
 		verifAssert(err == nil && prog != nil && len(prog.Body) == 1, "parses")
